@@ -10,6 +10,7 @@ import AspireModel.Model.Ctx
 import AspireModel.Model.Wiring
 import AspireModel.Model.Transforms
 import AspireModel.Model.Session
+import AspireModel.Model.Dtype
 import AspireModel.ErfFloat
 /-
   Pure part of the line-protocol driver: one request line in, one reply line out.
@@ -475,6 +476,38 @@ def opSession : P String := do
       go s' rest (snap :: acc)
   pure (" | ".intercalate (go {} ops []))
 
+
+/-! ### dtype / namespace conversions (C15): `conv cls src w tgt spec method` -/
+def parseNs : P Ns := do
+  match (← tok) with
+  | "numpy" => pure .numpy | "torch" => pure .torch | "jax" => pure .jax
+  | t => throw s!"bad namespace {t}"
+def parseW : P Width := do
+  match (← tok) with
+  | "f32" => pure .f32 | "f64" => pure .f64
+  | t => throw s!"bad width {t}"
+def nsName : Ns → String | .numpy => "numpy" | .torch => "torch" | .jax => "jax"
+def wName : Width → String | .f32 => "f32" | .f64 => "f64"
+
+def opConv : P String := do
+  let cls ← match (← tok) with
+    | "base" => pure SCls.base | "samples" => pure SCls.samples | "smc" => pure SCls.smc
+    | t => throw s!"bad class {t}"
+  let src ← parseNs; let w ← parseW; let tgt ← parseNs
+  let spec ← match (← tok) with
+    | "none" => pure DT.none
+    | "name" => do let w ← parseW; pure (DT.name w)
+    | "native" => do let n ← parseNs; let w ← parseW; pure (DT.native n w)
+    | t => throw s!"bad spec {t}"
+  let m ← match (← tok) with
+    | "to_namespace" => pure Method.toNamespace | "to_numpy" => pure Method.toNumpy | "from_samples" => pure Method.fromSamples
+    | t => throw s!"bad method {t}"
+  let i : ConvIn := { cls := cls, src := src, w := w, tgt := tgt, spec := spec, method := m }
+  let flags := outB (validReq i) ++ " " ++ outB (acceptsSpec i)
+  match convert i with
+  | .ok o => pure s!"{flags} ok {nsName o.ns} {wName o.w} {outB o.fieldsKept}"
+  | .error _ => pure s!"{flags} typeerror"
+
 def dispatch (op : String) : P String :=
   match op with
   | "weights" => opWeights (α := α)
@@ -501,6 +534,7 @@ def dispatch (op : String) : P String :=
   | "wiring" => opWiring
   | "tfm" => opTfm (α := α)
   | "session" => opSession
+  | "conv" => opConv
   | _ => throw s!"unknown op {op}"
 
 end Driver
